@@ -358,8 +358,8 @@ def run(ctx):
     tasks = []
     for di, doc in enumerate(docs_):
         npos = count_positions(doc)
-        for style in NS_STYLES + ("both:unprefixed,loaded-as-xtce", "both:prefixed,loaded-as-default"):
-            if ctx.quick and style in ("q", "none+xsi", "XTCE", "both:unprefixed,loaded-as-xtce", "both:prefixed,loaded-as-default"):
+        for style in NS_STYLES + ("both:unprefixed,loaded-as-xtce", "both:prefixed,loaded-as-default", "xtce+foreign-default", "xtce+extras"):
+            if ctx.quick and style in ("q", "none+xsi", "XTCE", "both:unprefixed,loaded-as-xtce", "both:prefixed,loaded-as-default", "xtce+foreign-default", "xtce+extras"):
                 pos = list(range(0, npos, 3))
                 ws = [False]
             else:
@@ -381,7 +381,7 @@ def run(ctx):
         "transitions": tally.transitions,
         "traces_validated_against_impl": tally.traces,
         "exhaustive": True,
-        "bound": (f"spellings: {len(docs_)} base documents x 8 namespace renderings (prefix xtce, prefix q, an upper-case prefix XTCE, default namespace, none, none + xmlns:xsi, and the namespace bound twice on the root with the loader told the binding the elements do not use) x a comment at every inter-element position "
+        "bound": (f"spellings: {len(docs_)} base documents x 10 namespace renderings (prefix xtce, prefix q, an upper-case prefix XTCE, default namespace, none, none + xmlns:xsi, and the namespace bound twice on the root with the loader told the binding the elements do not use, the XTCE prefix next to a foreign default namespace, and next to five unrelated prefixes) x a comment at every inter-element position "
                   f"({'every position for prefix xtce/default/none, every third for q and none+xsi' if ctx.quick else 'every position'}), all at once, "
                   f"x whitespace variants x boolean attribute spellings true, True, TRUE x (every attribute written | attributes that equal their documented default left out) x character spellings (plain | numeric character references in text and attribute values | general entities of an internal DTD subset | CDATA sections) x (schema attributes that do not bear on decoding absent | present), handed over in rotation as BytesIO / binary file object / text file object / str path / pathlib.Path; histories: every sequence of <= {3 if ctx.quick else 4} operations over a {nops}-operation menu "
                   "(15 target loads in different namespace conventions, two of them of documents with identical names and shape but different content, 2 loads of documents whose types carry two encodings in either order, a document the library warns about loaded by a caller who turns warnings into errors and by one who does not, 3 wrong-prefix loads, 4 loads that fail late inside the container/parameter set, 2 malformed inputs) followed by every target load (histories of length 4: every third target; quick tier, length 3: every other rendering target and all loose / strict targets); "
